@@ -281,6 +281,16 @@ fn op_hist14(ops: &str) -> String {
                         }
                     }
                     "k" => s.verif_kill_peer(&addr_of(rest.parse().unwrap())).await,
+                    "q" => {
+                        // the peer asks for a block of a piece we own: the manager's answer (load or ignore) must leave the
+                        // choke / interest bookkeeping alone
+                        s.verif_statuses()[0] = Status::Have;
+                        let (tx, _rx) = tokio::sync::oneshot::channel();
+                        let cmd = PeerCmd::RecvRequest { addr: addr_of(rest.parse().unwrap()), piece_index: 0, resp_ch: tx };
+                        if s.verif_handle_peer_cmd(cmd).await.is_err() {
+                            pre = "E".into()
+                        }
+                    }
                     "r" => {
                         let (rates_s, opt_s) = rest.split_once('/').unwrap();
                         let mut rates: Vec<(String, u32)> = if rates_s.is_empty() {
@@ -469,8 +479,15 @@ pub fn gen14(r: &mut Rng, n: usize) -> Vec<String> {
                 }
             } else if roll < 45 {
                 ops.push(format!("i{}", r.pick(&present)));
-            } else if roll < 55 {
+            } else if roll < 52 {
                 ops.push(format!("n{}", r.pick(&present)));
+            } else if roll < 55 {
+                // ... and a late block request right after (a peer that lost interest may still have one in flight)
+                let k = *r.pick(&present);
+                if r.coin() {
+                    ops.push(format!("n{}", k));
+                }
+                ops.push(format!("q{}", k));
             } else if roll < 65 {
                 ops.push(format!("b{}", r.pick(&present)));
             } else if roll < 72 {
